@@ -73,6 +73,28 @@ class CallMixin:
             nodes.append(k.value)
 
         def pack(s, vs):
+            # a starred sequence whose length differs between merged paths: split on the (few) feasible lengths
+            for idx, a in enumerate(n.args):
+                v = vs[idx]
+                if not (isinstance(a, ast.Starred) and isinstance(v, z3.ExprRef)):
+                    continue
+                if '$starargs' in s.ghost and z3.eq(v, s.ghost['$starargs'][0]):
+                    continue
+                ln = z3.simplify(z3.Length(self.seq_of(s, v)))
+                if z3.is_int_value(ln) or str(ln.get_id()) in s.ghost.get('$lenhint', {}):
+                    continue
+                res, rest = [], s
+                for L in range(0, 7):
+                    if rest is None:
+                        break
+                    hit, rest = self.split(rest, ln == L)
+                    if hit is not None:
+                        hit.ghost = dict(hit.ghost)
+                        hit.ghost['$lenhint'] = dict(hit.ghost.get('$lenhint', {}), **{str(ln.get_id()): L})
+                        res.extend(pack(hit, vs))
+                if rest is not None:
+                    self.unsupported(rest, 'star-args of symbolic length')
+                return res
             pos, kw = [], {}
             i = 0
             for a in n.args:
@@ -100,6 +122,8 @@ class CallMixin:
             raise Unsupported('star of static')
         seq = z3.simplify(self.seq_of(st, v))
         n = z3.simplify(z3.Length(seq))
+        if not z3.is_int_value(n) and str(n.get_id()) in st.ghost.get('$lenhint', {}):
+            n = z3.IntVal(st.ghost['$lenhint'][str(n.get_id())])
         if not z3.is_int_value(n):
             if isinstance(v, z3.ExprRef) and '$starargs' in st.ghost and z3.eq(v, st.ghost['$starargs'][0]):
                 return [('*', v)]
